@@ -1277,6 +1277,144 @@ def replay_threads(payload):
     return out
 
 
+# ---------------------------------------------------------------- sink kinds
+# The writer documents "an opened file handle or an in-progress web server
+# response" as its stream: the same calls must put the same bytes into
+# every kind of sink, whether write() returns the byte count or None (as
+# most hand-written file-likes and web responses do).
+
+SINK_KINDS = ['returns-none', 'bytesio', 'file', 'file-raw',
+              'buffered-16', 'spooled', 'gzip']
+
+
+class _NoneSink(object):
+    """A file-like as frameworks provide them: write() returns nothing."""
+    ret = None
+
+    def __init__(self):
+        self.parts = []
+
+    def write(self, b):
+        self.parts.append(bytes(b))
+        return self.ret
+
+    def flush(self):
+        pass
+
+    def getvalue(self):
+        return b''.join(self.parts)
+
+
+def write_through(doc, kind):
+    """Run doc = (root, calls, _) into a sink of `kind`; return its bytes."""
+    import gzip
+    import io
+    import os
+    import tempfile
+    from pydiffx import DiffXWriter
+    root, calls = doc[0], doc[1]
+    tmp = None
+    raw = None
+    if kind == 'returns-none':
+        fp = _NoneSink()
+    elif kind == 'bytesio':
+        fp = io.BytesIO()
+    elif kind in ('file', 'file-raw'):
+        fd, tmp = tempfile.mkstemp(prefix='verif-sink-')
+        os.close(fd)
+        fp = open(tmp, 'wb', buffering=0 if kind == 'file-raw' else -1)
+    elif kind == 'buffered-16':
+        raw = io.BytesIO()
+        fp = io.BufferedWriter(raw, buffer_size=16)
+    elif kind == 'spooled':
+        fp = tempfile.SpooledTemporaryFile(max_size=64)
+    elif kind == 'gzip':
+        raw = io.BytesIO()
+        fp = gzip.GzipFile(fileobj=raw, mode='wb')
+    else:
+        raise ValueError(kind)
+    try:
+        w = DiffXWriter(fp, encoding=fresh(root))
+        for c in calls:
+            apply_call(w, c)
+        if kind in ('returns-none', 'bytesio'):
+            return fp.getvalue()
+        if kind in ('file', 'file-raw'):
+            fp.close()
+            with open(tmp, 'rb') as f:
+                return f.read()
+        if kind == 'buffered-16':
+            fp.flush()
+            return raw.getvalue()
+        if kind == 'spooled':
+            fp.seek(0)
+            return fp.read()
+        fp.close()
+        return gzip.decompress(raw.getvalue())
+    finally:
+        try:
+            fp.close()
+        except Exception:
+            pass
+        if tmp:
+            try:
+                os.unlink(tmp)
+            except OSError:
+                pass
+
+
+def sink_docs():
+    docs = list(THREAD_DOCS)
+    big = 'line of text \u00e9\n' * 700
+    docs.append(('utf-16', [['preamble', big, None, 2, None, None],
+                            ['change', None], ['file', None],
+                            ['meta', {'path': 'f', 'blob': 'v' * 9000}, None],
+                            ['diff', b'+x\n' * 5000, None, None, None]],
+                 False))
+    return docs
+
+
+def check_sink(di, kind):
+    doc = sink_docs()[di]
+    want = spec.serialize(doc[1], doc[0])[0]
+    try:
+        got = write_through(doc, kind)
+    except Exception as e:
+        return [('sink-kind-raised:%s:%s' % (type(e).__name__, site_of(e)),
+                 'document %d written into a %s sink: %r' % (di, kind, e))]
+    if got != want:
+        return [('bytes-depend-on-sink-kind',
+                 'document %d written into a %s sink: %d bytes, reference '
+                 '%d bytes' % (di, kind, len(got), len(want)))]
+    return []
+
+
+def sink_units():
+    return [('sinks',)]
+
+
+def run_sink_unit(unit, tier, acc_cls):
+    acc = acc_cls()
+    for di in range(len(sink_docs())):
+        for kind in SINK_KINDS:
+            viols = check_sink(di, kind)
+            acc.evals += 1
+            acc.states += 1
+            acc.transitions += len(sink_docs()[di][1])
+            acc.validated += 1
+            acc.nontrivial += 1
+            for key, msg in viols:
+                acc.violation(key, msg, {'kind': 'sink', 'doc': di,
+                                         'sink': kind})
+            acc.outcome('ok' if not viols else 'violation')
+    acc.sample({'sink_kinds': SINK_KINDS}, 1)
+    return acc
+
+
+def replay_sink(payload):
+    return check_sink(payload['doc'], payload['sink'])
+
+
 # ----------------------------------------------- live objects in one thread
 # Two writers (then two readers) alive at the same time in ONE thread, their
 # calls interleaved in every possible order (every merge of the two call
